@@ -79,6 +79,13 @@ def cases(tier: str, seed: int) -> List[Dict[str, Any]]:
             for entry in ("raw", "SGD", "AdamW"):
                 out.append({"st": st, "form": "groups", "lrkind": "float", "wd": 0.01, "mix": mix, "indep": 1,
                             "entry": entry, "seed": seed, "frozen": True})
+        # distinct Parameter objects that share storage (a readout tied to the embedding under another tag) and
+        # zero-element parameters: every input parameter OBJECT still gets exactly one group
+        if sum(g[0] for g in st) >= 2:
+            for shared in ("tied", "empty"):
+                for entry in ("raw", "SGD", "AdamW"):
+                    out.append({"st": st, "form": "groups", "lrkind": "float", "wd": 0.01, "mix": 0, "indep": 1,
+                                "entry": entry, "seed": seed, "shared": shared})
         if any(g[2] for g in st):
             # an explicit per-group weight_decay of exactly 0 (the usual no-decay group) next to a
             # non-zero global decay, and an explicit group lr next to a different global lr
@@ -147,6 +154,8 @@ def run_case(case: Dict[str, Any]) -> Dict[str, Any]:
         ident += "|own_wd=0"
     if case.get("frozen"):
         ident += "|frozen_params"
+    if case.get("shared"):
+        ident += "|shared=" + case["shared"]
     one_shot = case.get("pform", "list") in ("generator", "iter")
     if one_shot:
         ident += "|group_params=" + case["pform"]
@@ -172,6 +181,11 @@ def run_case(case: Dict[str, Any]) -> Dict[str, Any]:
         for _ in range(npar):
             shape, tag = SHAPES[idx % len(SHAPES)], TAGS[idx % len(TAGS)]
             data = torch.randn(shape, dtype=torch.float64, generator=gen) + 0.5
+            if case.get("shared") == "empty" and idx < 2:
+                data = torch.empty((0, 3) if idx == 0 else (0, 5), dtype=torch.float64)  # zero rows, non-zero fan-in
+            if case.get("shared") == "tied" and idx == 1:
+                data = params[0].data  # same storage, another Parameter object, another tag
+                tag = "output" if TAGS[0] != "output" else "weight"
             if mix and idx % 2 == 1:
                 p = torch.nn.Parameter(data)
                 tagged = False
@@ -291,7 +305,7 @@ def run_case(case: Dict[str, Any]) -> Dict[str, Any]:
             seen[ptr] = i
     # ---- history of steps with zero gradients
     steps = 0
-    if opt is not None and not viol:
+    if opt is not None and not viol and case.get("shared") != "tied":  # (tied storage decays once per owner)
         for n in (1, 2, 3):
             for p in params:
                 if p.requires_grad:
